@@ -132,6 +132,20 @@ def comp_prefix(c, d):
     return len(c) <= len(d) and d[:len(c)] == c
 
 
+def sig_of(m):
+    if m.startswith('get_case('):
+        return 'C17:get_case-by-index' if ('is not the' in m or 'get_case(%' not in m) else 'C17:get_case'
+    if 'selected by the options' in m:
+        return 'C17:selection'
+    if 'at the recording instant' in m:
+        return 'C17:values'
+    if 'execution order' in m:
+        return 'C17:order'
+    if 'list_cases(' in m or 'list_sources' in m or 'hierarchy' in m:
+        return 'C17:hierarchy'
+    return 'C17:other'
+
+
 def names_of(pad):
     return sorted(pad.absolute_names()) if pad is not None else []
 
@@ -204,8 +218,13 @@ def handle(c):
         if len(msgs) < 6:
             msgs.append(m)
 
-    cr = om.CaseReader(fname)
-    coords = list(cr.list_cases(out_stream=None))
+    try:
+        cr = om.CaseReader(fname)
+        coords = list(cr.list_cases(out_stream=None))
+    except Exception as e:   # noqa
+        return {'res': '__none__', 'ok': False, 'sig': 'C17:reader-cannot-read', 'kind': c['driver']['type'],
+                'msg': 'CaseReader cannot read the recording (%d cases, e.g. %r): %s: %s' % (
+                    len(snaps), [s['coord'] for s in snaps][-1:], type(e).__name__, str(e)[:300])}
     want_coords = [s['name'] if s['name'] is not None else s['coord'] for s in snaps]
     if coords != want_coords:
         bad('list_cases() is not the execution order: %r vs recorded %r' % (coords[:6], want_coords[:6]))
@@ -335,7 +354,7 @@ def handle(c):
     ok = not msgs
     maxit = max([it for pc in parsed if pc for _, it in pc[1]] or [0])
     return {'res': {'sel': sel, 'hier': hier}, 'ok': ok, 'msg': ' ;; '.join(msgs[:3]),
-            'sig': ('C17:' + msgs[0][:40]) if msgs else '', 'kind': c['driver']['type'],
+            'sig': sig_of(msgs[0]) if msgs else '', 'kind': c['driver']['type'],
             'stats': {'cases': len(snaps), 'values': nvals, 'queries': nq, 'max_iter_count': maxit,
                       'requesters': len(sel)}}
 
